@@ -172,7 +172,7 @@ func access(rv reflect.Value) reflect.Value {
 
 func desc(rv reflect.Value, depth int, inMem bool) *D {
 	rv = access(rv)
-	if depth > 8 {
+	if depth > 12 {
 		return &D{K: "deep"}
 	}
 	if !rv.IsValid() {
@@ -289,7 +289,7 @@ func descIface(rv reflect.Value, depth int) *D {
 // descStruct describes a struct; field addresses are recorded only when the
 // struct lives in inMem (pointed-to) memory.
 func descStruct(rv reflect.Value, depth int, inMem bool) *D {
-	if depth > 8 {
+	if depth > 12 {
 		return &D{K: "deep"}
 	}
 	d := &D{K: "struct"}
